@@ -1,7 +1,6 @@
 package parser
 
 import (
-	"fmt"
 	"strconv"
 
 	"github.com/vektah/gqlparser/v2/ast"
@@ -110,7 +109,18 @@ func (p *parser) next() lexer.Token {
 	verifhook.Next(p.tokenCount)
 	if p.maxTokenLimit != 0 && p.tokenCount > p.maxTokenLimit {
 		verifhook.LimitHit(p.tokenCount)
-		p.err = fmt.Errorf("exceeded token limit of %d", p.maxTokenLimit)
+		// report it like any other parse error: in the source being parsed, at the token that is over the limit
+		// (or, if that token has not been read yet, at the last one within it)
+		at := p.prev
+		if p.peeked {
+			at = p.peekToken
+		}
+		line, column := at.Pos.Line, at.Pos.Column
+		if at.Pos.Src == nil {
+			// nothing has been read yet
+			line, column = 1, 1
+		}
+		p.err = gqlerror.ErrorLocf(p.lexer.Name, line, column, "exceeded token limit of %d", p.maxTokenLimit)
 		return p.prev
 	}
 	if p.peeked {
